@@ -74,7 +74,7 @@ def run_case(case) -> Result:
         # root-cause hint: the rarest kind of event that occurred before the failure
         kinds = {e[0] for e in events}
         for tag in ("project", "copy_copy", "set_metric", "rebuild_B"):
-            if tag in kinds:
+            if tag in kinds and not key.startswith("read-only"):
                 key += {"project": ":after-project_onto_cotangent_space(state.mom)", "copy_copy": ":after-copy.copy(state)",
                         "set_metric": ":after-system.metric-reassigned",
                         "rebuild_B": ":after-system-object-replaced"}[tag]
@@ -246,6 +246,26 @@ def run_case(case) -> Result:
                 pass
             if np.asarray(state.pos).tobytes() != before:
                 fail("read-only-modified", "a read-only copy changed value")
+            # augmented assignment (what the flows do: state.mom -= ...): must be rejected without changing the value
+            for style in ("augmented", "flow"):
+                before_p, before_m = np.asarray(state.pos).tobytes(), np.asarray(state.mom).tobytes()
+                try:
+                    if style == "augmented":
+                        state.mom += np.ones(n)
+                    else:
+                        systems["A"].h1_flow(state, 0.1)
+                    rejected = False
+                except (ReadOnlyStateError, ValueError):
+                    rejected = True
+                except Exception as e:  # noqa: BLE001
+                    if through_code_under_test(e.__traceback__) is None:
+                        raise
+                    rejected = True
+                if np.asarray(state.pos).tobytes() != before_p or np.asarray(state.mom).tobytes() != before_m:
+                    fail(f"read-only-modified-in-place:{style}", f"a read-only state was changed by "
+                         f"{'state.mom += ...' if style == 'augmented' else 'system.h1_flow(state, dt)'} "
+                         f"({'an error was raised afterwards' if rejected else 'no error'})")
+                    break
         elif kind in ("step", "transition"):
             if clsA in zoo.CONSTRAINED and not on_manifold[i]:
                 continue
